@@ -30,6 +30,11 @@ pub const FAULTS: &[&str] = &[
     "continue say 1", "listen to x listen", "turn up x turn down y", "give back 1 give back 2",
     // (d) invalid identifiers
     "a1 is 5", "x_y is 5", "_x is 5", "say a1", "put 1 into x_y", "build a1 up", "say 1.2.3", "x is 5 plus 1x",
+    // (d') non-letters outside ASCII (superscript, currency sign, emoji, non-ASCII digit, middle dot, section sign, fraction) at the end, in the middle and at the start of a word
+    "x² is 5", "x€ is 5", "x😀 is 5", "x٣ is 5", "x·y is 5", "x§ is 5", "x½ is 5", "say x²", "say ca€sh", "say x😀y", "put 1 into x٣", "build x§ up", "the x² is 5", "Zed Y€d is 5",
+    // (d'') the noun of a common name is held to the same rule
+    "the x1 is 5", "say my a1", "put 1 into your x_y", "the 5 is 3", "say the 5", "build the a1 up", "an ² is 1", "my x€ is 5",
+    "€x is 5", "say ²x", "put 1 into 😀x", "say é€", "say İ²", "x is 5 plus y²", "say x at y€", "fun taking x²", "rock x with y😀",
     // (e) unterminated string, (f) unterminated comment
     "\"abc", "say \"abc", "put \"abc into x", "(abc", "say 1 (abc", "say (abc",
     // stray tokens where a statement must start
